@@ -427,8 +427,12 @@ class ThreadingApplication(Application):
     def stop(self):
         self._resp_queue_consumer.stop()
         self._recv_queue_consumer.stop()
-        self._resp_queue_consumer.join(2)
-        self._recv_queue_consumer.join(2)
+        # (an application whose `start` failed half-way has a consumer that
+        # never ran, and a thread that was not started cannot be joined)
+        if self._resp_queue_consumer.ident is not None:
+            self._resp_queue_consumer.join(2)
+        if self._recv_queue_consumer.ident is not None:
+            self._recv_queue_consumer.join(2)
         super().stop()
 
 
